@@ -31,7 +31,7 @@ POSTCONDITION EmitCases
 CHECK_DEADLOCK FALSE
 """
 TIERS = {"quick": dict(K=3, MaxP=2, MaxN=2, Easy="EasyQuick"),
-         "thorough": dict(K=4, MaxP=3, MaxN=2, Easy="EasyThorough")}
+         "thorough": dict(K=4, MaxP=2, MaxN=2, Easy="EasyThorough")}
 AXES = ["fnr", "fpr", "tnr", "tpr", "far", "frr", "tar", "trr"]
 VIEWS = ["tpr", "tnr", "far", "frr", "tar", "trr"]
 
@@ -145,7 +145,7 @@ def run(ctx: core.Ctx):
     events = []
     for cid, o in enumerate(cases):
         g = fam[(cid + ctx.seed) % len(fam)]
-        events += events_for_case(o, cid, g, args, ids, axes_per_arg=1 if ctx.tier == "quick" else 4)
+        events += events_for_case(o, cid, g, args, ids, axes_per_arg=1 if ctx.tier == "quick" else 2)
         vals = list(o["pos"]) + list(o["neg"])
         if len(set(vals)) < len(vals) or o["ep"] or o["en"]:
             ctx.nontrivial.add(json.dumps(o, sort_keys=True))
